@@ -1633,6 +1633,17 @@ func longScenariosIn(r *Rng) {
 	}
 }
 
+// a calibration profile with ONE physical line at and beyond 64 KiB, alone and after a short first line
+func hugeLineScenariosIn(r *Rng) {
+	for _, n := range []int{65535, 65536, 70000, 300000} {
+		js := "{\"k\":\"" + strings.Repeat("abcdefghij", n/10+1)[:n-8] + "\"}"
+		if n != 300000 {
+			emitMsgs([]*rwp.InboundMessage{{Command: &rwp.Command{SetCalibrationProfile: &rwp.CalibrationProfile{Json: js}}}})
+		}
+		emitMsgs([]*rwp.InboundMessage{{Command: &rwp.Command{SetCalibrationProfile: &rwp.CalibrationProfile{Json: "{\"a\": 1,\n \"b\":" + js + "\n}"}}}, {FlowMessage: 1}})
+	}
+}
+
 func genC01(r *Rng, n int, tier string) {
 	sweepC01()
 	wideC01()
@@ -1662,6 +1673,7 @@ func genC01(r *Rng, n int, tier string) {
 		emitMsgs(g.msgs())
 	}
 	g.coin = false
+	hugeLineScenariosIn(r)
 }
 
 // ------------------------------------------------------------------------------------------------
@@ -2319,6 +2331,78 @@ func (g *lgen) longLineScenarios() {
 	}
 }
 
+// (g) JSON-carrying lines ('{' state, '[' message list, SetNetworkConfig=) that are a complete valid JSON value FOLLOWED
+// or PRECEDED by something: a stray closing bracket, a comma, a second value glued on, another protocol line run
+// together with it, garbage, blanks, a byte-order mark. Only blanks after the value keep the line valid JSON; every
+// other line is not one JSON value and is outside the grammar as a whole. What encoding/json.Unmarshal yields for each
+// line is in the record's oracle table.
+var jsonTrailers = []string{"}", "]", ",", ":", "garbage", " HWC#8=4", "HWC#8=4", " x", "\"", "null", "0", "{}", "[]", "{", "[", "\ufeff", " ", "\t", "\r", "  \t ", " }", "\t,", "\r]",
+	"\nHWC#8=4", ",{}", "//c", "\x00", "\xff"}
+var jsonLeaders = []string{" ", "\t", "\ufeff", "\r", "  "}
+
+func (g *lgen) jsonValue(kind int) string {
+	switch kind {
+	case 0:
+		j, _ := json.Marshal(g.m.state())
+		return string(j)
+	case 1:
+		j, _ := json.Marshal(g.m.msgs())
+		return string(j)
+	}
+	j, _ := json.Marshal(g.m.netcfg())
+	return string(j)
+}
+
+func (g *lgen) jsonGluedScenarios(randomN int) {
+	around := func(l string) {
+		emitLines([]string{l})
+		emitLines([]string{"HWC#1=4", l, "HWC#1=0"})
+	}
+	fixed := []string{
+		"{\"HWCIDs\":[7],\"HWCColor\":{\"ColorIndex\":{\"Index\":4}}}",
+		"{\"HWCIDs\":[9],\"HWCMode\":{\"State\":2}}",
+		"{\"HWCIDs\":[11],\"HWCText\":{\"Title\":\"x\"}}",
+		"[{\"States\":[{\"HWCIDs\":[3],\"HWCMode\":{\"State\":4}}]}]",
+		"[{\"Command\":{\"ClearAll\":true}},{\"Registers\":[{\"Id\":\"A\",\"Value\":5}]}]",
+		"SetNetworkConfig={\"address\":\"10.0.0.9\",\"dhcp\":true}",
+	}
+	for _, v := range fixed {
+		for _, t := range jsonTrailers {
+			around(v + t)
+		}
+		for _, l := range jsonLeaders {
+			around(l + v)
+		}
+		// two values glued
+		for _, w := range fixed[:5] {
+			around(v + w)
+		}
+	}
+	for i := 0; i < randomN; i++ {
+		kind := g.r.Intn(3)
+		v := g.jsonValue(kind)
+		if kind == 2 {
+			v = "SetNetworkConfig=" + v
+		}
+		var l string
+		switch g.r.Intn(5) {
+		case 0, 1:
+			l = v + jsonTrailers[g.r.Intn(len(jsonTrailers))]
+		case 2:
+			l = v + g.jsonValue(g.r.Intn(3))
+		case 3:
+			l = jsonLeaders[g.r.Intn(len(jsonLeaders))] + v
+		case 4:
+			l = v + strings.Join(g.line(), "")
+		}
+		lines := []string{l}
+		if g.r.Bool() {
+			lines = cat(g.line(), lines, g.line())
+		}
+		emitLines(lines)
+	}
+}
+
 func genC02(r *Rng, n int, tier string) {
 	genInMatch(r, tier)
 	sweepC02()
@@ -2373,6 +2457,7 @@ func genC02(r *Rng, n int, tier string) {
 	g.enumScenarios(300 * scale)
 	g.seqScenarios(150 * scale)
 	g.longLineScenarios()
+	g.jsonGluedScenarios(150 * scale)
 }
 
 // ------------------------------------------------------------------------------------------------
